@@ -1,6 +1,7 @@
 """Both-ways test of the checkers: every mutation patch under /verif/selftest and /verif/seeded is
 applied to a scratch copy of /repo (under $TMPDIR, removed afterwards), must still type-check, and
-the named check must report the expected instance key. usage: ./check selftest [name-substring ...]
+the named check must report the expected instance key; patches under selftest/silent are behaviour-preserving edits on which every
+check must stay silent. usage: ./check selftest [name-substring ...]
 """
 import json
 import os
@@ -21,6 +22,12 @@ def entries():
         for e in json.load(open(idx)):
             e["patch_path"] = os.path.join(VERIF, "selftest", e["patch"])
             out.append(e)
+    # behaviour-preserving edits: every check must stay silent on them
+    qd = os.path.join(VERIF, "selftest", "silent")
+    if os.path.isdir(qd):
+        for fn in sorted(os.listdir(qd)):
+            if fn.endswith(".patch"):
+                out.append({"name": "silent/" + fn[:-6], "property": "all", "expect": None, "patch_path": os.path.join(qd, fn), "silent": True})
     sd = os.path.join(VERIF, "seeded")
     if os.path.isdir(sd):
         for d in sorted(os.listdir(sd)):
@@ -54,6 +61,9 @@ def run_entry(e):
         out = r.stdout
         if "fact extraction failed" in out:
             return False, "mutant does not compile: " + out[-800:]
+        if e.get("silent"):
+            bad = [l for l in out.splitlines() if l.startswith("VIOLATION") or "violated:" in l]
+            return (not bad and r.returncode == 0), ("all checks silent on a behaviour-preserving edit" if not bad and r.returncode == 0 else "FALSE ALARM: " + " ".join(bad)[:600])
         if e.get("undetected"):
             return True, "recorded as not detected (exit %d)" % r.returncode
         if r.returncode == 0:
